@@ -12,15 +12,15 @@ the user named get `.host` appended before the base name is taken.
 
 The sender waits for a one-byte reply after every record; `send` is the byte stream it produces
 when every reply is an acknowledgement (an error reply makes it skip the rest of that entry).
-Mirrored oddity: an entry whose *path* equals the sentinel string is sent as `E\n`.
+Mirrored oddity (code as found): an entry whose *path* equals the sentinel string is sent as `E\n`.
 Not modelled: `snprintf` truncation of paths at MAXPATHNAMELEN and of records at BUFSIZ (the
 domain of C11 has short names), source files changing while they are read.
 -/
 namespace PdshVerif.Pcp
 open PdshVerif.Gen
 
-/-- a source tree: permission bits, modification and access time (whole seconds, as `stat`
-reports them in `st_mtime`/`st_atime`), contents; children in `readdir` order -/
+/-- a source tree: permission bits, modification and access time in MICROSECONDS since the epoch
+(`st_mtim`/`st_atim` at the resolution of the `T` record), contents; children in `readdir` order -/
 inductive Tree where
   | file (mode mtime atime : Nat) (data : Str)
   | dir (mode mtime atime : Nat) (kids : List (Str × Tree))
@@ -61,9 +61,12 @@ def dec (n : Nat) : Str := decAux (n + 1) n []
 def oct4 (m : Nat) : Str :=
   [digitByte (m / 512 % 8), digitByte (m / 64 % 8), digitByte (m / 8 % 8), digitByte (m % 8)]
 
-/-- `"T%ld %ld %ld %ld\n", st_mtime, 0L, st_atime, 0L` -/
-def tRecord (mtime atime : Nat) : Str :=
-  cT :: dec mtime ++ cSp :: 48 :: cSp :: dec atime ++ [cSp, 48, cNl]
+/-- `"T%ld %ld %ld %ld\n"`: seconds and microseconds of the modification and the access time -/
+def tRecord (mt mu at' au : Nat) : Str :=
+  cT :: dec mt ++ cSp :: dec mu ++ cSp :: dec at' ++ cSp :: dec au ++ [cNl]
+
+/-- one second in the unit of `Tree` times -/
+def USEC : Nat := 1000000
 
 /-- `"D%04o %d %s\n", st_mode & RCP_MODEMASK, 0, xbasename(output_file)` -/
 def dRecord (mode : Nat) (name : Str) : Str :=
@@ -77,16 +80,22 @@ structure SOpts where
   preserve : Bool      -- -p
   reverse : Bool       -- `pcp->pcp_client`: remote side of rpdcp (`pdcp -Z`)
   host : Str           -- `pcp->host`
+  subsec : Bool        -- model variant: the microsecond fields of `T` are sent (repair of F11-MTIME-SUBSEC);
+                       -- the code as found sends `0L`
+  sentinelFix : Bool   -- model variant: only entries the user did NOT name can be the sentinel
+                       -- (repair of F11-SENTINEL-NAME)
 
 /-- `_pcp_sendfile` + `pcp_sendfile` for one list entry, all replies positive -/
 def sendEntry (so : SOpts) : Entry → Str
   | .exitSubdir => exitFlag
   | .ent path user isDir m t a d =>
-    if path = sentinelName then exitFlag
+    if path = sentinelName && !(so.sentinelFix && user) then exitFlag
     else
       let outf := if so.reverse && user then path ++ cDot :: so.host else path
       let name := xbasename outf
-      (if so.preserve then tRecord t a else []) ++
+      (if so.preserve then
+          tRecord (t / USEC) (if so.subsec then t % USEC else 0) (a / USEC) (if so.subsec then a % USEC else 0)
+        else []) ++
         (if isDir then dRecord m name else cRecord m d.length name ++ d ++ [0])
 
 /-- the flattened list for all sources -/
